@@ -22,6 +22,7 @@ RULE = (
     "a read of an entry resident with its value opens no file under the store (audit hook), and a fitting str/bytes/array value that was just loaded from the store is served by the cache when it is read again at once. "
     "Non-trivial = transition/history with an eviction, an oversize or exactly fitting put, or a forget of a resident; "
     "distinct by (state, op) in A and by op-kind sequence in B."
+    " Round 5: the budget every invariant is checked against is the configured one (the explicit argument), not the one the cache object reports; stores may be built from a reused configuration dict naming a larger cache."
 )
 ASSUMPTIONS = [
     "observes MemoryCache.memory_usage, .cache and .lru_deque (the attributes the repo's own tests inspect)",
